@@ -286,6 +286,12 @@ def _run_symbolic(ob, case, res, tmo, seed):
         # much harder for the solver than its members, and a named goal is what a violation report needs
         stop = False
         for l, t in terms:
+            try:
+                if canon.closes(t):
+                    res['backend']['gf2-canon'] = res['backend'].get('gf2-canon', 0) + 1
+                    continue
+            except RecursionError:
+                pass
             ts = z3.simplify(t)
             if z3.is_true(ts):
                 res['backend']['rewriter'] = res['backend'].get('rewriter', 0) + 1
